@@ -517,6 +517,9 @@ pub(crate) mod verif_env;
 #[cfg(all(transparencies_stretto_verif, kani))]
 #[path = "/verif/harness/kmap.rs"]
 pub(crate) mod verif_kmap;
+#[cfg(all(transparencies_stretto_verif, kani))]
+#[path = "/verif/harness/kvec.rs"]
+pub(crate) mod verif_kvec;
 
 #[cfg(all(transparencies_stretto_verif, any(kani, test)))]
 #[path = "/verif/harness/h_lib.rs"]
